@@ -1505,3 +1505,10 @@ impl noq::UdpSender for Sender {
         self.sender.max_transmit_segments
     }
 }
+
+/// Verification hooks, compiled only with `--cfg iroh_verif`.
+#[cfg(iroh_verif)]
+pub mod verif_hooks {
+    /// `RelayTransport` receive path fed by a caller-owned queue.
+    pub use super::relay::verif_hooks as relay;
+}
